@@ -83,6 +83,8 @@ def jobs(tier, seed):
     out.append(dict(name="special-many-actions", kind="special", variant="many_actions", devices=1, seed=seed, cost=40))
     out.append(dict(name="special-float-states", kind="special", variant="float_states", devices=1, seed=seed, cost=5))
     out.append(dict(name="special-int-initial-values", kind="special", variant="int_v0", devices=1, seed=seed, cost=5))
+    # a second sweep on the same solver object with other values and another discount factor
+    out.append(dict(name="special-second-call", kind="special", variant="second_call", devices=1, seed=seed, cost=8))
     for pname in ("forest", "de_moor", "hendrix", "mirjalili"):
         for dv in ([1] if tier == "quick" else [1, 2]):
             out.append(dict(name=f"shipped-{pname}-dev{dv}", kind="shipped", problem=pname, devices=dv, seed=seed, cost=30,
@@ -276,6 +278,10 @@ def special_problem(variant, seed):
         S, A, E = 2, 300, 1
         T, R, P, V0 = kit.rand_tables(S, A, E, seed)
         return Tab(S, A, E, T=T, R=R, P=P), dict(S=S, A=A, E=E, bs=2)
+    if variant == "second_call":
+        S, A, E = 3, 2, 2
+        T, R, P, V0 = kit.rand_tables(S, A, E, seed)
+        return Tab(S, A, E, T=T, R=R, P=P), dict(S=S, A=A, E=E, bs=2)
     if variant == "float_states":
         S, A, E = 5, 2, 2
         T, R, P, V0 = kit.rand_tables(S, A, E, seed)
@@ -294,12 +300,17 @@ def _run_special(job, ob):
     Tidx = np.asarray(jax.vmap(jax.vmap(jax.vmap(pb.state_to_index)))(pb.T)).reshape(S, A, E)
     Pc = np.asarray(pb.P)
     v0c = np.asarray(solver.values)
-    gq = zx.Fraction(7, 8)
+    gq = zx.Fraction(1, 2) if variant == "second_call" else zx.Fraction(7, 8)
     ex = pathx.Explorer()
 
     def run():
         with symbolic():
             pb.R = sym("R", (S, A, E))
+            if variant == "second_call":
+                solver.values = sym("Vfirst", (S,))
+                solver.gamma = jnp.asarray(0.875)
+                solver._update_values(solver.batched_states, pb.action_space, pb.random_event_space, solver.gamma, solver.values)
+                solver._extract_policy()
             if variant != "int_v0":
                 solver.values = sym("V", (S,))
             solver.gamma = jnp.asarray(float(gq))
@@ -400,6 +411,13 @@ def replay(data):
         pb, cfg = special_problem(c["variant"], job.get("seed", 0))
         S, A, E = cfg["S"], cfg["A"], cfg["E"]
         solver = kit.make_solver("vi", pb, max_batch_size=cfg["bs"], gamma=0.875)
+        g_ = 0.875
+        if c["variant"] == "second_call":
+            solver.values = jnp.asarray(np.arange(S, dtype=float))
+            solver._update_values(solver.batched_states, pb.action_space, pb.random_event_space, solver.gamma, solver.values)
+            solver._extract_policy()
+            g_ = 0.5
+            solver.gamma = jnp.asarray(0.5)
         if c.get("kind") == "special_exc":
             try:
                 solver.solve(1)
@@ -413,13 +431,13 @@ def replay(data):
             solver.values = jnp.asarray(V)
         Tidx = np.asarray(jax.vmap(jax.vmap(jax.vmap(pb.state_to_index)))(pb.T)).reshape(S, A, E)
         P = np.asarray(pb.P)
-        Q = (P * (R + 0.875 * V[Tidx])).sum(-1)
+        Q = (P * (R + g_ * V[Tidx])).sum(-1)
         B = Q.max(-1)
         new = np.asarray(solver._update_values(solver.batched_states, pb.action_space, pb.random_event_space, solver.gamma, solver.values))
         pol = np.asarray(solver._extract_policy())
         asp = np.asarray(pb.action_space)
         rows = [int(np.where((asp == pol[j]).all(1))[0][0]) for j in range(S)]
-        tol = 1e-7 * max(np.abs(R).max(), np.abs(V).max(), 1e-300)
+        tol = kit.REPLAY_RTOL * max(np.abs(R).max(), np.abs(V).max(), 1e-300)
         bad = (not np.issubdtype(new.dtype, np.floating)) or np.abs(new - B).max() > tol or any(abs(Q[j, rows[j]] - B[j]) > tol for j in range(S))
         return bool(bad), f"{c['variant']}: sweep {new[:4]} (dtype {new.dtype}) vs Bellman {B[:4]}; policy rows {rows[:4]} vs argmax {Q.argmax(-1)[:4].tolist()}"
     T = np.array(c["T"], dtype=np.int64)
@@ -442,7 +460,7 @@ def replay(data):
                                            jnp.asarray(g), jnp.asarray(V)))
     solver.values, solver.gamma = jnp.asarray(V), jnp.asarray(g)
     pol = np.asarray(solver._extract_policy())
-    tol = 1e-7 * max(np.abs(R).max(), np.abs(V).max(), 1e-300)   # relative to the magnitude of the inputs (the property is scale-free)
+    tol = kit.REPLAY_RTOL * max(np.abs(R).max(), np.abs(V).max(), 1e-300)   # relative to the magnitude of the inputs (the property is scale-free)
     i = c["state"]
     if c["kind"] == "sweep":
         bad = new.shape != B.shape or abs(new[i] - B[i]) > tol
